@@ -222,6 +222,16 @@ def gen_scipy(rng, tier):
                     c['perturb'] = rng.choice([0.0, 0.0, 1e-9])
                     c['noise'] = [[rng.uniform(-1, 1) for _ in range(9)] for _ in range(n)]
                 cases.append(c)
+        # quaternions stored with negative w (the long way round): canonical rotation vectors, fractional powers, magnitude
+        for nq, pw in (([[0.6, 0.0, 0.0, -0.8]], 0.5), ([[0.1, -0.7, 0.1, -0.7]], 2.5), ([[0.5, 0.5, 0.5, -0.5], [0.0, 0.6, 0.0, -0.8]], -1.5),
+                       ([[0.28, 0.0, 0.96, -0.0]], 0.5)):
+            for op in ('rotvec', 'pow', 'magnitude'):
+                c = {'op': op, 'kind': 'negative_w', 'q': nq, 'single': len(nq) == 1}
+                if op == 'rotvec':
+                    c['degrees'] = False
+                if op == 'pow':
+                    c['n'] = pw
+                cases.append(c)
         for _k in range(3):
             seq = rng.choice([x for x in SEQS3 if x[0] != x[2]])
             seq = seq.upper() if rng.random() < 0.5 else seq
